@@ -158,8 +158,8 @@ macro_rules! find_substr_harness {
         pub fn $name() {
             // lengths are concrete per harness (symbolic-length memcmp / char counting inside std is
             // what makes CBMC slow); the bytes are symbolic
-            let text = { let s = SymStr::<$t>::any_utf8(); kani::assume(s.n == $t); s };
-            let pat = { let s = SymStr::<$p>::any_utf8(); kani::assume(s.n == $p); s };
+            let text = SymStr::<$t>::any_utf8_len($t);
+            let pat = SymStr::<$p>::any_utf8_len($p);
             // reference: scan character positions
             let mut want = [0usize; $t];
             let mut cnt = 0;
